@@ -153,7 +153,7 @@ func TestVerifC01(t *testing.T) {
 	r.Set("extra_votes_over_quorum", 2)
 	r.Set("thresholds", 491)
 	r.Set("repeats_per_presentation", repeats)
-	r.Assume("required count on the VoteResult path is the implementation's own Threshold.Threshold(n) (checked by C02)")
+	r.Assume("required count on the VoteResult path is the exact integer ceil(n*t/100), independent of the implementation")
 	r.Assume("Go map iteration order is chosen by the runtime; each multi-fact presentation is evaluated 20 times in up to 5 insertion orders instead of enumerating map orders")
 
 	item := 0
@@ -295,10 +295,14 @@ func c01PartB(t *testing.T, r *vlib.Run, n uint, t10 int, repeats int) {
 		t.Fatal(err)
 	}
 
-	rq := th.Threshold(n)
-	if rq2 := th2.Threshold(n); rq2 != rq {
-		t.Fatalf("literal and parsed threshold disagree: %v %v", rq, rq2)
+	// the required count of the reference is the exact ceil(n*t/100) in integers (tenths), not the
+	// implementation's own Threshold.Threshold(n): a tally that counts against a wrong required count is wrong
+	// (C02 checks Threshold.Threshold on the full grid; here it is checked where it decides a tally)
+	rq := uint((uint64(n)*uint64(t10) + 999) / 1000)
+	if rq > n {
+		rq = n
 	}
+	_ = th2
 
 	c01Tuples(c01MaxFacts, n+2, true, true, func(counts []uint) {
 		k := len(counts)
